@@ -618,6 +618,14 @@ pub trait AutoMerge: RemoteSyncHandler {
             return Ok(AutoMergeStatus::RewindLocal(remote));
         }
 
+        // An event that both sides already hold (same commit
+        // and timestamp) must appear once in the merged patch
+        local.retain(|l| {
+            !remote
+                .iter()
+                .any(|r| r.commit() == l.commit() && r.time() == l.time())
+        });
+
         // Combine the event records
         local.extend(remote);
 
